@@ -1329,7 +1329,7 @@ def family_sequence(site, consts, sizes, key):
 def local_names(site, key):
     """names of the local variables declared in the site's function (source order)"""
     fn = find_function(clang_docs(site["filter"], key), site)
-    names = []
+    names = [p.get("name") for p in fn.get("inner", []) if p.get("kind") == "ParmVarDecl" and p.get("name")]
     for n in walk([c for c in fn["inner"] if c.get("kind") == "CompoundStmt"][0]):
         if n.get("kind") == "VarDecl" and n.get("name") and n["name"] not in names:
             names.append(n["name"])
@@ -1550,6 +1550,8 @@ def main():
     relock = "--relock" in sys.argv or not os.path.exists(lock_path)
     lock = {} if relock else json.load(open(lock_path))
     relocated = {}
+    by_name = {x["lean"]: x for x in sites}
+
     def with_relocation(s):
         """translate `s`; when the expression at the locked position is not the locked one (or the selector no
         longer resolves) and the function only GAINED members of the selector's family — e.g. a guard inserted
@@ -1661,9 +1663,18 @@ def main():
     else:
         for k, v in SIGNATURES.items():
             if k in lock and status.get(k) == "ok" and lock[k]["sig"] != v:
-                # same types and same body up to the names of the parameters: a renaming in the C++ source
+                # same types and same body up to the names of plain locals/parameters: a renaming in the C++
+                # source — provided the old name is gone and the new one is new (using ANOTHER existing
+                # variable of the same type is a change of meaning, not a renaming)
                 if lock[k]["alpha"] == ALPHA.get(k, ""):
-                    continue
+                    oldn = re.findall(r"\((\S+) :", lock[k]["sig"]); newn = re.findall(r"\((\S+) :", v)
+                    try:
+                        cur = {lname(x) for x in local_names(by_name[k], key)}
+                    except Exception:
+                        cur = set()
+                    was = {lname(x) for x in (lock[k].get("locals") or [])}
+                    if len(oldn) == len(newn) and all(o == n or (o not in cur and n not in was) for o, n in zip(oldn, newn)):
+                        continue
                 status[k] = f"signature-changed: was `{lock[k]['sig']}` now `{v}`"
     json.dump({"repo_hash": key, "sites": status, "relocated": relocated},
               open(os.path.join(BUILD, "gen_status.json"), "w"), indent=1)
